@@ -230,12 +230,11 @@ def run_path(con: Contract, case, prefix, worklist, report: FunctionReport, plan
                      "goal": str(info.get("goal"))[:2000], "model": str(m)[:4000],
                      "awaits": _conc_awaits(ctx.await_log, m)}
                 )
-        if len(report.samples) < 3:
-            for name, verdict, info in ctx.obligations:
-                if "goal" in info or len(report.samples) >= 3:
-                    continue
-            report.samples.append({"decisions": list(ctx.decisions), "pc_size": len(ctx.pc),
-                                   "obligations": [n for n, _, _ in ctx.obligations][:8]})
+        for name, verdict, info in ctx.obligations:
+            if "goal_text" in info and len(report.samples) < 3:
+                report.samples.append({"obligation": name, "verdict": verdict, "backend": info.get("backend"),
+                                       "path_decisions": list(ctx.decisions)[:12], "hypotheses_on_path": info.get("hypotheses"),
+                                       "goal": info["goal_text"], "solver_s": round(info.get("t", 0.0), 4)})
     report.paths += 1
 
 
